@@ -162,6 +162,10 @@ func checkC09(w *World, r *Report) {
 			r.Bad("C09.sites", "SetAccount in "+funcName(fn)+" (unclassified)", pos, "the stored account is neither a fresh account nor one read by GetAccount: "+o.String())
 		}
 	}
+	if w.Tier == "thorough" {
+		r.Rule("C09.closedworld", "P3 (VTA, whole program)", "thorough tier: every caller of the auth keeper's SetAccount that is reachable from a custom message through module and SDK code is an enumerated module site or a reviewed SDK path that only creates missing accounts", 3)
+		closedWorldAccounts(w, r, "C09.closedworld")
+	}
 	for _, s := range cg.SitesIn(reach) {
 		if cg.Atom(s) == AuthRemove {
 			r.Bad("C09.sites", "RemoveAccount in "+funcName(s.Caller), w.Pos(s.Instr.Pos()), "a custom message or block routine removes an account")
